@@ -261,8 +261,63 @@ def callback_threading(ctx, rule="C17.R8"):
         raise AnalysisError(f"{rule}: fewer than 3 contribution step_callback implementations found")
 
 
+def ivp_full_mass_matrix(ctx, rule="C17.R11"):
+    """The ODE wrapper DEFINES u_dot (right-hand side of the integrated ODE and reported accelerations) and the multipliers through the
+    system's mass matrix.  They satisfy  M u_dot = h + W la  only if M enters whole: as the matrix of a linear solve, as a block of a
+    block matrix, or in a product / sum.  A projection of M (`.diagonal()`, an element-wise reciprocal, an index) is exact for lumped masses
+    in principal axes only - which is every shipped example.  (DualStormerVerlet's diagonal preconditioner and prox parameters are not
+    in scope: they steer an iteration, they do not define its fixed point.)"""
+    rep = ctx.rep
+    cls = ctx.repo.get(IVP, "ScipyIVP")
+    SOLVES = {"spsolve", "splu", "solve", "lu_solve", "factorized", "spsolve_triangular"}
+    n = 0
+    for fn in [f for f in cls.body if isinstance(f, ast.FunctionDef)]:
+        C = f"{IVP}:ScipyIVP.{fn.name}"
+        par = {}
+        for p_ in ast.walk(fn):
+            for c_ in ast.iter_child_nodes(p_):
+                par[id(c_)] = p_
+        mcalls = [c for c in ast.walk(fn) if isinstance(c, ast.Call) and isinstance(c.func, ast.Attribute) and c.func.attr == "M" and norm_src(c.func.value) in ("self.system", "system")]
+        if not mcalls:
+            continue
+        names = set()
+        for c in mcalls:
+            pa = par.get(id(c))
+            if isinstance(pa, ast.Assign) and len(pa.targets) == 1 and isinstance(pa.targets[0], ast.Name) and pa.value is c:
+                names.add(pa.targets[0].id)
+        uses = [(c, par.get(id(c))) for c in mcalls if not (isinstance(par.get(id(c)), ast.Assign) and par[id(c)].value is c)]
+        uses += [(w, par.get(id(w))) for w in ast.walk(fn) if isinstance(w, ast.Name) and w.id in names and isinstance(w.ctx, ast.Load)]
+        for node, pa in uses:
+            n += 1
+            how = None
+            if isinstance(pa, ast.Call) and node in pa.args and (dotted(pa.func) or "").split(".")[-1] in SOLVES and pa.args[0] is node:
+                ok_ = True
+                how = f"matrix of `{norm_src(pa.func)}`"
+            elif isinstance(pa, ast.BinOp) and isinstance(pa.op, (ast.MatMult, ast.Add, ast.Sub)):
+                ok_ = True
+                how = "operand of a matrix product / sum"
+            elif isinstance(pa, (ast.List, ast.Tuple)):
+                ok_ = True
+                how = "block of a block matrix"
+            elif isinstance(pa, ast.UnaryOp) and isinstance(pa.op, ast.USub):
+                ok_ = True
+                how = "negated block"
+            else:
+                ok_ = False
+            if ok_:
+                rep.ok(rule, C, f"`{norm_src(node)[:40]}` enters whole: {how}")
+            else:
+                ctxt = norm_src(pa)[:80] if pa is not None else "?"
+                rep.bad(rule, C, pa if pa is not None else node, f"the system mass matrix is not used whole here: `{ctxt}` takes a projection of it (diagonal / element / reciprocal), so the "
+                        "accelerations and multipliers defined with it satisfy M u_dot = h + W la only for a diagonal mass matrix (no products of inertia, no rods)", f"{IVP}:{node.lineno}")
+    if n < 2:
+        raise AnalysisError(f"{IVP}: fewer than 2 uses of the system mass matrix found in ScipyIVP")
+
+
 def run(ctx):
     rep = ctx.rep
+    rep.rule("C17.R11", "ScipyIVP: the system mass matrix enters the definition of u_dot and of the multipliers whole (linear solve, block, product), never through its diagonal or elements", 2)
+    ivp_full_mass_matrix(ctx)
     rep.rule("C17.R10", "ScipyIVP: every reported row of u_dot, la_g, la_gamma, la_c is the KKT solve at that output's (t, q, u)", 1)
     ivp_rows_from_kkt(ctx)
     rep.rule("C17.R9", "Moreau: the stored solution of the step's linear system contains its right-hand side (incl. the constraint rows chi_g, chi_gamma) exactly once", 1)
@@ -570,4 +625,14 @@ NEUTRAL += [
 MUTANTS += [
     dict(id="c17-r10-seed", canary=True, what="[seeded by sub-agent] ScipyIVP copies the accelerations / multipliers at t0 from the assembly snapshot", file=IVP,
          old="        for i, (ti, qi, ui) in enumerate(zip(t, q, u)):\n", new="        u_dot[0] = self.system.u_dot0\n        for i, (ti, qi, ui) in enumerate(zip(t, q, u)):\n", expect="C17.R10"),
+]
+
+MUTANTS += [
+    dict(id="c17-r11-seed", canary=True, what="[seeded by sub-agent] ScipyIVP.la_g_la_gamma_la_c applies 1 / M.diagonal() instead of solving with M", file='cardillo/solver/scipy_ivp.py',
+         edits=[('cardillo/solver/scipy_ivp.py', 'from scipy.sparse import bmat, csc_array\n', 'from scipy.sparse import bmat, csc_array, diags_array\n'), ('cardillo/solver/scipy_ivp.py', '        M = self.system.M(t, q, format="csc")\n        h = self.system.h(t, q, u)\n\n        if self.nla_g > 0:\n            MW_g = (spsolve(M, W_g)).reshape((self.nu, self.nla_g))\n        else:\n            MW_g = csc_array((self.nu, self.nla_g))\n        if self.nla_gamma > 0:\n            MW_gamma = (spsolve(M, W_gamma)).reshape((self.nu, self.nla_gamma))\n        else:\n            MW_gamma = csc_array((self.nu, self.nla_gamma))\n        Mhla_c = spsolve(M, h + W_tau @ la_tau + W_c @ la_c)\n\n', '        h = self.system.h(t, q, u)\n\n        M_inv = diags_array(1 / self.system.M(t, q).diagonal())\n        MW_g = M_inv @ W_g\n        MW_gamma = M_inv @ W_gamma\n        Mhla_c = M_inv @ (h + W_tau @ la_tau + W_c @ la_c)\n\n'), ('cardillo/solver/scipy_ivp.py', '        u_dot = spsolve(\n            M, h + W_tau @ la_tau + W_c @ la_c + W_g @ la_g + W_gamma @ la_gamma\n        )\n', '        u_dot = Mhla_c + MW_g @ la_g + MW_gamma @ la_gamma\n')], expect="C17.R11"),
+]
+NEUTRAL += [
+    dict(id="c17-n-r11", canary=True, what="ScipyIVP.la_g_la_gamma_la_c factorises M once (splu) and reuses the factorisation for u_dot", file='cardillo/solver/scipy_ivp.py',
+         edits=[('cardillo/solver/scipy_ivp.py', "from scipy.sparse.linalg import spsolve\n", "from scipy.sparse.linalg import spsolve, splu\n"),
+                ('cardillo/solver/scipy_ivp.py', '        u_dot = spsolve(\n            M, h + W_tau @ la_tau + W_c @ la_c + W_g @ la_g + W_gamma @ la_gamma\n        )\n', "        u_dot = splu(M).solve(h + W_tau @ la_tau + W_c @ la_c + W_g @ la_g + W_gamma @ la_gamma)\n")]),
 ]
